@@ -22,7 +22,10 @@ def main(argv=None):
         rec = json.load(f)
     prop = rec["property"]
     eng = runner.engine(rec["engine"])
-    out = runner.run_plan_iso(eng, rec["plan"], prop)
+    if rec.get("history"):
+        out = runner.run_history_iso(eng, list(rec["history"]) + [rec["plan"]], prop)
+    else:
+        out = runner.run_plan_iso(eng, rec["plan"], prop)
     print("replay property=%s status=%s oracle=%s key=%s step=%d digest=%s" %
           (prop, out.status, out.oracle, out.key, out.step, out.digest))
     if out.detail:
